@@ -60,6 +60,11 @@ fn main() {
                 }
                 i += 1;
             }
+            // a runaway allocation in the code under test must not take the sandbox down: address space cap
+            unsafe {
+                let lim = libc::rlimit { rlim_cur: 40 << 30, rlim_max: 40 << 30 };
+                libc::setrlimit(libc::RLIMIT_AS, &lim);
+            }
             let ctx = Ctx::new(&prop, tier, seed);
             let code = props::run(&ctx);
             std::process::exit(code);
